@@ -245,7 +245,8 @@ def gen_env_sizers(rnd):
     for j in range(1, total + 1):
         r = rnd.random()
         if len(sizer_pos) < n_sizers and (r < 0.35 or j == 1):
-            ms.append(M("plain", I(rnd.choice([1, 2, 4, 8]))))
+            # (one sizer in three is a signed integer)
+            ms.append(M("plain", I(rnd.choice([1, 2, 4, 8]), rnd.choice([0, 0, 1]))))
             sizer_pos.append(j)
         elif r < 0.6:
             ms.append(M("dyn", rnd.choice([I(1), I(2), I(4), I(8), S.BYTE])))
